@@ -94,12 +94,17 @@ class Ocp(Stage):
                 
                 return self._augmented._transcribed
         else:
+            if getattr(self, '_var_stale', False):
+                raise Exception("This object (e.g. a solution) belongs to a transcription made before the OCP was edited. Solve the edited OCP to obtain a new one.")
             self._transcribe()
             return self
         
     def transcribe(self,**kwargs):
         self._untranscribe()
-        self._transcribe(**kwargs)
+        if self._is_original and not kwargs:
+            self._transcribed # transcribes a copy: the declared specification stays as it is
+        else:
+            self._transcribe(**kwargs)
 
     def _transcribe(self,**kwargs):
         if not self.is_transcribed:
